@@ -606,7 +606,7 @@ type vc08Watch struct {
 
 func vc08StartWatch(n int, rep *vc08Report) *vc08Watch {
 	w := &vc08Watch{cur: make([]atomic.Pointer[string], n), since: make([]atomic.Int64, n), stop: make(chan struct{})}
-	const limit = 10 * time.Second
+	const limit = 60 * time.Second
 	go func() {
 		tk := time.NewTicker(250 * time.Millisecond)
 		defer tk.Stop()
